@@ -343,6 +343,40 @@ def c08_dir_scope(res, pid, rng, tier):
     return [], fails
 
 
+
+# ------------------------------------------------------------------ re-encodings and their decoders (C08, C09)
+
+def codec_scope(res, pid, rng, tier):
+    """the model's re-encodings (`type7`, `hexOf`, `numericOf`) and the decoders their round-trip theorems use
+    (`type7Decode`, `unhex`, `decVal`) against passlib / binascii / int – the functions netconan calls, and the
+    functions a reader of the output would call"""
+    from binascii import b2a_hex, unhexlify
+    from passlib.hash import cisco_type7
+    from .common import cps
+    sess = Sess()
+    n = 600 if tier == "thorough" else 150
+    texts = ["netconanRemoved%d" % k for k in (0, 1, 9, 10, 99, 100, 12345)] + ["", "a", "\x01x", "~" * 60]
+    for _ in range(n):
+        ln = rng.choice((1, 2, 5, 17, 25, 53, 54, 80))
+        texts.append("".join(chr(rng.randint(1, 127)) for _ in range(rng.randint(1, ln))))
+    for t in texts:
+        for salt in ({9} | {rng.randint(0, 52)}):
+            sess.op("type7 %d %s" % (salt, cps(t)), lambda: "ok " + cps(cisco_type7.using(salt=salt).hash(t)))
+            enc = cisco_type7.using(salt=salt).hash(t)
+            sess.op("t7dec " + cps(enc), lambda: "ok " + cps(cisco_type7.decode(enc)))
+        sess.op("hexof " + cps(t), lambda: "ok " + cps(b2a_hex(t.encode()).decode()))
+        h = b2a_hex(t.encode()).decode()
+        sess.op("unhex " + cps(h), lambda: "ok " + cps(unhexlify(h).decode("latin-1")))
+        if t:
+            sess.op("numericof " + cps(t), lambda: "ok " + cps(str(int(b2a_hex(t.encode()), 16))))
+            d = str(int(b2a_hex(t.encode()), 16))
+            sess.op("decval " + cps(d), lambda: "ok %d" % int(d))
+        res.count("codec_text_len_%s" % (len(t) if len(t) < 3 else "3-20" if len(t) <= 20 else ">20"))
+    dis = sess.finish()
+    res.evaluations += len(sess.lines)
+    res.traces += 1
+    return dis, []
+
 # ------------------------------------------------------------------ C09
 
 def c09_scope(res, pid, rng, tier):
